@@ -21,11 +21,13 @@ import (
 	"bytes"
 	"encoding/hex"
 	"fmt"
+	"github.com/jcmturner/gokrb5/v8/config"
 	"math"
 	"math/rand"
 	"reflect"
 	"strings"
 	"time"
+	"verif/harness/internal/kdc"
 
 	"github.com/jcmturner/gofork/encoding/asn1"
 	"github.com/jcmturner/gokrb5/v8/asn1tools"
@@ -66,6 +68,7 @@ func Run(c *hctx.Ctx) {
 	}
 	// (the recorder keeps the first 200 oracle failures: the message oracles come first, the exhaustive helper
 	// enumerations last)
+	g.libraryBuilt()
 	g.ticketOperations()
 	g.shortFlagWords()
 	g.messages(n)
@@ -1350,5 +1353,57 @@ func (g *gen) shortFlagWords() {
 			c.Check(ok, "kdc-options-widening-keeps-flags", "C13:kdc-options-short-word-misnumbered",
 				fmt.Sprintf("kdc-options %x decoded as %x", w.Bytes, d.KDCOptions.Bytes), short(bb))
 		}
+	}
+}
+
+// libraryBuilt: messages the library builds itself (its constructors choose the time values): every KerberosTime on the
+// wire is YYYYMMDDHHMMSSZ whatever the zone of the host (this process runs with a +05:30 local zone), judged by an
+// independent strict reader.
+func (g *gen) libraryBuilt() {
+	c := g.c
+	cname := types.PrincipalName{NameType: 1, NameString: []string{"testuser1"}}
+	check := func(what string, b []byte, err error) {
+		ok, why := false, fmt.Sprint(err)
+		if err == nil {
+			ok, why = kdc.StrictDER(b)
+		}
+		c.Check(ok, "a message built by the library's own constructor is DER with KerberosTime as YYYYMMDDHHMMSSZ (RFC 4120 5.2.3)", "library-built-not-der:"+what, why, map[string]interface{}{"bytes": short(b), "local-zone": time.Now().Format("-0700")})
+		c.Count("library-built:" + what)
+	}
+	for i := 0; i < 3; i++ {
+		p, _ := hctx.Guard(func() {
+			a, err := types.NewAuthenticator("TEST.GOKRB5", cname)
+			if err == nil {
+				var b []byte
+				b, err = a.Marshal()
+				check("types.NewAuthenticator", b, err)
+				if a.CTime.Location() != time.UTC {
+					c.Check(false, "the authenticator's client time is held in UTC", "library-built-not-utc:types.NewAuthenticator", a.CTime.String(), nil)
+				}
+			} else {
+				check("types.NewAuthenticator", nil, err)
+			}
+		})
+		c.Check(!p, "no panic", "panic:types.NewAuthenticator", "", nil)
+		cfg := config.New()
+		cfg.LibDefaults.DefaultRealm = "TEST.GOKRB5"
+		cfg.LibDefaults.RenewLifetime = time.Duration(i) * time.Hour
+		p, _ = hctx.Guard(func() {
+			r, err := messages.NewASReqForTGT("TEST.GOKRB5", cfg, cname)
+			if err == nil {
+				var b []byte
+				b, err = r.Marshal()
+				check("messages.NewASReqForTGT", b, err)
+			} else {
+				check("messages.NewASReqForTGT", nil, err)
+			}
+		})
+		c.Check(!p, "no panic", "panic:messages.NewASReqForTGT", "", nil)
+		p, _ = hctx.Guard(func() {
+			e := messages.NewKRBError(cname, "TEST.GOKRB5", 6, "text")
+			b, err := e.Marshal()
+			check("messages.NewKRBError", b, err)
+		})
+		c.Check(!p, "no panic", "panic:messages.NewKRBError", "", nil)
 	}
 }
